@@ -126,6 +126,9 @@ func c02R2(c *Ctx) {
 	if f := c.Anchor(rule, "gemmill/types.(*Block).ValidateBasic"); f != nil {
 		for _, r := range nilErrReturns(f) {
 			c.requireGuards(rule, "ValidateBasic:success", f, r, []WantGuard{
+				{"header-present", cfgx.Equals("(a0.Header != nil)")},
+				{"data-present", cfgx.Equals("(a0.Data != nil)")},
+				{"last-commit-present", cfgx.Equals("(a0.LastCommit != nil)")},
 				{"ChainID", cfgx.Equals("(a0.Header.ChainID == a1)")},
 				{"Height", cfgx.Equals("(a0.Header.Height == (a2 + 1))")},
 				{"NumTxs", cfgx.Equals("(a0.Header.NumTxs == (len(a0.Data.Txs) + len(a0.Data.ExTxs)))")},
